@@ -118,6 +118,10 @@ export function makeAttr(b, rng, kind, st) {
     case 'boolNull': return leafAttr(plain(), rng.pick(['true', 'false', 'null']), { dynamic: false });
     case 'undef': return leafAttr(plain(), 'undefined', { dynamic: false });
     case 'arrow': return leafAttr(plain(), `() => ${b.fnGlobal({ k: 'sent' })}()`, { dynamic: true });
+    // (TSX only) values under TS-only wrappers: the wrapper says nothing about whether the value can change
+    case 'tsAsConstArr': return leafAttr(plain(), `[${b.global({ k: 'sent' })}, ${b.fnGlobal({ k: 'sent' })}()] as const`, { dynamic: true, ts: true });
+    case 'tsAsConstObj': return leafAttr(plain(), `[{ k: ${b.global({ k: 'sent' })} }] as const`, { dynamic: true, ts: true });
+    case 'tsWrappedIdent': return leafAttr(plain(), rng.pick([(g) => `${g}!`, (g) => `(${g} as any)`, (g) => `${g} satisfies unknown`, (g) => `${g} as unknown as string`])(b.global({ k: 'sent' })), { dynamic: true, ts: true });
     case 'objConst': return leafAttr(plain(), '{ a: 1, b: [2, "x"] }', { dynamic: false });
     case 'objDyn': return leafAttr(plain(), `{ a: 1, b: ${b.global({ k: 'sent' })} }`, { dynamic: true });
     case 'arrDyn': return leafAttr(plain(), `[1, ${b.fnGlobal({ k: 'sent' })}()]`, { dynamic: true });
